@@ -8,6 +8,7 @@ import (
 	"sync/atomic"
 
 	"github.com/buchgr/bazel-remote/v2/cache"
+	"github.com/buchgr/bazel-remote/v2/utils/verifhook"
 	"github.com/prometheus/client_golang/prometheus"
 )
 
@@ -441,9 +442,11 @@ func (c *SizedLRU) appendEvictionToQueue(e *entry) {
 // without holding the diskCache.mu mutex.
 func (c *SizedLRU) performQueuedEvictions() {
 
+	verifhook.Await("evict.recv", func() bool { return len(c.queuedEvictionsChan) > 0 })
 	sliceOfEntries := <-c.queuedEvictionsChan
 
 	for _, kv := range sliceOfEntries {
+		verifhook.Step("evict.unlink", kv.key)
 		c.onEvict(kv.key, kv.value)
 		c.queuedEvictionsSize.Add(-kv.value.sizeOnDisk)
 	}
